@@ -280,6 +280,15 @@ func (p *Parser) newError(line uint, msg string, args ...any) {
 func (p *Parser) nextToken() {
 	p.curToken = p.peekToken
 	p.peekToken = p.l.NextToken()
+
+	// an illegal character is always an error, wherever it is found
+	if p.peekToken.Type == token.ILLEGAL {
+		p.newError(
+			p.peekToken.ErrorLine(),
+			fail.ErrIllegalToken,
+			p.peekToken.Literal,
+		)
+	}
 }
 
 func (p *Parser) parseIdentifier() ast.Expression {
